@@ -15,7 +15,8 @@ DECIDES = ('(a) single source: in USBDevice the UTMI transmit lines have exactly
            'carries a token-derived, gap-delayed strobe in its guard or expression (tokenizer.ready_for_response, '
            'rx_ready_for_response, data_requested, status_requested, timer.tx_allowed), or sits in an FSM state that is '
            'unreachable once the edges carrying such a strobe are removed; those strobes are only produced after the end of a '
-           'received token/data packet plus the inter-packet delay (C01, C02, C05); (d) framing of what is sent: C03, C04. ')
+           'received token/data packet plus the inter-packet delay (C01, C02, C05); (d) framing of what is sent: C03, C04; (e) a complete '
+           'token addressed to another device withdraws the token direction (interface.pid) the endpoints act on. ')
 NOT_DECIDED = 'absence of overlap across arbitrary traffic (needs timing); user-supplied request handlers.'
 STROBES = ('ready_for_response', 'rx_ready_for_response', 'data_requested', 'status_requested', 'timer.tx_allowed')
 
@@ -102,3 +103,34 @@ def run(ctx):
     n += check_class(ctx, ctx.ir('StandardRequestHandler', 'request.standard'), 'StandardRequestHandler', HS + [I + 'tx.valid'])
     n += check_class(ctx, ctx.ir('StallOnlyRequestHandler', 'usb2.request'), 'StallOnlyRequestHandler', HS + [I + 'tx.valid'])
     ctx.need(n >= 15, 'transmission start sites (%d)' % n)
+    # (e) "addressed to it": a complete token for another device must withdraw the token direction the endpoints act on,
+    #     otherwise the foreign transaction's data packet is answered (the data receiver is not address-filtered)
+    td_ = ctx.ir('USBTokenDetector', 'usb2.packet')
+    nt = q.raises(td_, 'self.interface.new_token')
+    ctx.need(len(nt) == 1 and nt[0].state, 'the site reporting a token')
+    ours = q.atoms(nt[0])
+    addr = [(a, p) for a, p in ours if 'self.address' in a and p]
+    ctx.need(len(addr) == 1, 'address comparison in the token report guard')
+    foreign = (ours - set(addr)) | {(addr[0][0], False)}
+    flags = {}
+    for fl in ('is_in', 'is_out', 'is_setup', 'is_ping'):
+        d = td_.drivers('self.interface.' + fl, exact=True)
+        ce = q.const_eq(d[0].rhs) if len(d) == 1 and not d[0].guard else None
+        ctx.need(ce is not None and ce[1] == 'self.interface.pid', 'definition of interface.' + fl)
+        flags[fl] = ce[0]
+    from ..fsm import holds
+    pw = [a for a in td_.drivers('self.interface.pid', exact=True) if a.state == nt[0].state or a.state is None]
+
+    def winner(assume):
+        live = [a for a in pw if holds(a.guard, dict(assume), default=False)]
+        return max(live, key=lambda a: a.order) if live else None
+    w_own, w_oth = winner(ours), winner(foreign)
+    ok = w_own is not None and w_own.rhs.op != 'const' and w_oth is not None and w_oth.rhs.op == 'const' and \
+        w_oth.rhs.val not in flags.values()
+    later = []
+    own, oth = [w_own] if w_own else [], [w_oth] if w_oth else []
+    ctx.ob('C20.foreign-token-clears-direction', 'USBTokenDetector.interface.pid@foreign-token', ok and not later,
+           (oth or own or nt)[0].loc,
+           'a complete token with another address must load interface.pid with a value matching none of IN/OUT/SETUP/PING '
+           '(%s) whenever the report guard holds except for the address test (last assignment wins); writers in that state: %s'
+           % (sorted(flags.values()), [q.fmt(a)[:160] for a in pw]))
